@@ -18,3 +18,8 @@ func Yield(context.Context, string) {}
 
 // BeforeLock does nothing in regular builds.
 func BeforeLock(context.Context, *sync.Mutex, string) {}
+
+// Fine-grained mode entry points: empty in regular builds (see hook_on.go).
+func YieldHere(string)                        {}
+func BeforeLockFn(func() bool, func(), string) {}
+func Held(int)                                {}
